@@ -80,6 +80,8 @@ opkinds! {
     SerReal = "ser_real",             // [slot, format]
     DeScripted = "de_scripted",       // [len_idx, count, hint0, running, flags]
     DeReal = "de_real",               // [len_idx, delta, format, cut, corrupt]
+    // self-contained operations on arrays of larger-than-a-page elements
+    WideOp = "wide",                  // [which(0..8), len(0..6 -> 0,1,2,3,5,8), delta]
 }
 
 pub const N_ARGS: usize = 5;
